@@ -70,6 +70,7 @@ ATLAS: Dict[str, Any] = {
         "xAOD::Jet": {"header": "xAODJet/Jet.h", "lib": "xAODJet", "alias": ["xAOD::Jet_v1"], "attributes": True, "members": {
             **_KIN,
             "nTrk": num("int"), "width": num("float"), "isGood": num("bool"), "hasLead": num("bool"),
+            "ttype": num("double", declared=True, md={"metadata_type": "add_method_type_info", "type_string": "xAOD::Jet", "method_name": "ttype", "return_type": "double", "tree_type": "float"}),
             "trkPts": vec("float"), "hits": vec("int"), "weights": vec("double"),
             "tracks": objvec("xAOD::TrackParticle", 1),
             "leadTrack": obj("xAOD::TrackParticle", 1, nullable=True),
@@ -132,6 +133,7 @@ CMS_AOD: Dict[str, Any] = {
         **_cms_common_classes(True, []),
         "reco::Muon": {"header": "DataFormats/MuonReco/interface/Muon.h", "members": {
             **_KIN, "nTrk": num("int"), "width": num("float"), "isGood": num("bool"), "hasLead": num("bool"),
+            "ttype": num("double", declared=True, md={"metadata_type": "add_method_type_info", "type_string": "reco::Muon", "method_name": "ttype", "return_type": "double", "tree_type": "float"}),
             "trkPts": vec("float"), "hits": vec("int"), "weights": vec("double"),
             "tracks": objvec("reco::Track", 0),
             "isPFMuon": num("bool", builtin_decl=True), "isPFIsolationValid": num("bool", builtin_decl=True),
@@ -168,6 +170,7 @@ CMS_MINIAOD: Dict[str, Any] = {
         **_cms_common_classes(False, ["reco::TrackRef"]),
         "pat::Muon": {"header": "DataFormats/PatCandidates/interface/Muon.h", "members": {
             **_KIN, "nTrk": num("int"), "width": num("float"), "isGood": num("bool"), "hasLead": num("bool"),
+            "ttype": num("double", declared=True, md={"metadata_type": "add_method_type_info", "type_string": "pat::Muon", "method_name": "ttype", "return_type": "double", "tree_type": "float"}),
             "trkPts": vec("float"), "hits": vec("int"), "weights": vec("double"),
             "tracks": objvec("reco::Track", 0),
             "isPFMuon": num("bool", builtin_decl=True), "isPFIsolationValid": num("bool", builtin_decl=True),
